@@ -8,6 +8,7 @@ CONSTANTS
   Depth = 3
   MaxObjs = 1
   Parents = {"none"}
+  Fmts = {"F1", "F2"}
   Variant = "pin_inherited"
 INVARIANT ExactlyOnce
 INVARIANT RightList
